@@ -45,6 +45,16 @@ fn hop<T: Serialize + DeserializeOwned>(x: &T, ty: &str, out: &mut Out, sig: &st
     y
 }
 
+/// hop for types with a typed equality: the object that arrives is the object that was sent (a document that re-serialises to
+/// itself can still have lost what the sender meant: an empty interval is not "no interval")
+fn hop_eq<T: Serialize + DeserializeOwned + PartialEq + std::fmt::Debug>(x: &T, ty: &str, out: &mut Out, sig: &str) -> T {
+    let y = hop(x, ty, out, sig);
+    if *x != y {
+        out.oracle_fail("the object that arrives after a wire hop is not the object that was sent", &json!({"fam":"c15.hop","sig":sig,"type":ty,"sent":format!("{x:?}").chars().take(3000).collect::<String>(),"arrived":format!("{y:?}").chars().take(3000).collect::<String>()}), &Value::Null);
+    }
+    y
+}
+
 /// one complete flow (issue, hold, present, verify) with or without a hop at every hand-over point; returns the verdict
 fn flow_with_hops(eng: &mut Engine, rng_seed: u64, revocable: bool, w3c_form: bool, hops: bool, out: &mut Out) -> String {
     let w = eng.cast.w.clone();
@@ -95,7 +105,7 @@ fn flow_with_hops(eng: &mut Engine, rng_seed: u64, revocable: bool, w3c_form: bo
         reqj["ver"] = json!(*rng.pick(&["1.0", "2.0"]));
     }
     let pres_req: PresentationRequest = serde_json::from_value(reqj).unwrap();
-    let pres_req = if hops { hop(&pres_req, "PresentationRequest", out, "") } else { pres_req };
+    let pres_req = if hops { hop_eq(&pres_req, "PresentationRequest", out, "") } else { pres_req };
     let rrds: Option<HashMap<_, _>> = match (&reg, &rrd) {
         (Some(r), Some(def)) => Some([(r.rid.clone(), def.clone())].into_iter().collect()),
         _ => None,
@@ -211,7 +221,7 @@ pub fn c15(eng: &mut Engine, rng: &mut Rng, thorough: bool, out: &mut Out) -> Ca
         let c = eng.cast.creds[i].cred.try_clone().unwrap();
         hop(&c, "Credential", out, "");
         let w: W3CCredential = eng.cast.creds[i].w3c.clone();
-        hop(&w, "W3CCredential", out, "");
+        hop_eq(&w, "W3CCredential", out, "");
     }
     for r in 0..eng.cast.regs.len() {
         for l in eng.cast.regs[r].lists.clone() {
@@ -224,8 +234,8 @@ pub fn c15(eng: &mut Engine, rng: &mut Rng, thorough: bool, out: &mut Out) -> Ca
         let o = honest_vopts(&eng.cast, &plan);
         if w3c_form {
             if let Ok(b) = eng.build_w3c(&plan) {
-                let p2 = hop(&b.pres, "W3CPresentation", out, "");
-                let r2 = hop(&b.req, "PresentationRequest", out, "");
+                let p2 = hop_eq(&b.pres, "W3CPresentation", out, "");
+                let r2 = hop_eq(&b.req, "PresentationRequest", out, "");
                 let (v1, _) = eng.verify_w3c(&b.pres, &b.req, &o);
                 let (v2, _) = eng.verify_w3c(&p2, &r2, &o);
                 if v1 != v2 {
@@ -235,13 +245,44 @@ pub fn c15(eng: &mut Engine, rng: &mut Rng, thorough: bool, out: &mut Out) -> Ca
         } else if let Ok(b) = eng.build_legacy(&plan) {
             let p: Presentation = serde_json::from_value(b.pres.clone()).unwrap();
             let p2 = hop(&p, "Presentation", out, "");
-            let r2 = hop(&b.req, "PresentationRequest", out, "");
+            let r2 = hop_eq(&b.req, "PresentationRequest", out, "");
             let v1 = eng.verify_legacy(&b.pres, &b.req, &o).map(|x| x.0);
             let v2 = eng.verify_legacy(&serde_json::to_value(&p2).unwrap(), &r2, &o).map(|x| x.0);
             if v1 != v2 {
                 out.oracle_fail("presentation verifies differently after a wire hop", &json!({"fam":"c15.present","sig":"","format":"legacy"}), &json!({"direct": v1, "hopped": v2}));
             }
         }
+    }
+    // presentation requests with every boundary form of their optional parts: intervals with no / one / both bounds (request-wide
+    // and local), degenerate restrictions, both versions; what arrives must equal what was sent and mean the same to the model's
+    // abstraction
+    for i in 0..(if thorough { 600 } else { 60 }) {
+        let plan = gen_honest_plan(rng, &eng.cast, i % 2 == 1, i % 3 == 0);
+        let mut r = plan.request_json();
+        let ivs = [json!({}), json!({"from": null, "to": null}), json!({"from": 5}), json!({"to": 9}), json!({"from": 5, "to": 9}), json!({"from": 0, "to": 0}), Value::Null];
+        let restr = [json!({}), json!([]), json!([{}]), json!({"$not": {}}), json!({"$and": []}), json!({"$or": []}), json!({"$or": [{}]}), json!({"$and": [{"$not": {"$or": []}}]}), json!([{"schema_id": null}]), json!([{"schema_id": null, "cred_def_id": "x:y"}]), json!({"schema_name": {"$in": []}}), Value::Null];
+        if rng.chance(2, 3) {
+            r["non_revoked"] = rng.pick(&ivs).clone();
+        }
+        for section in ["requested_attributes", "requested_predicates"] {
+            if let Some(m) = r[section].as_object_mut() {
+                for (_, v) in m.iter_mut() {
+                    if rng.chance(1, 2) {
+                        v["non_revoked"] = rng.pick(&ivs).clone();
+                    }
+                    if rng.chance(1, 2) {
+                        v["restrictions"] = rng.pick(&restr).clone();
+                    }
+                }
+            }
+        }
+        match rng.below(3) { 0 => { r["ver"] = json!("1.0"); } 1 => { r["ver"] = json!("2.0"); } _ => {} }
+        let Ok(req) = serde_json::from_value::<PresentationRequest>(r.clone()) else { out.count("c15:request:not-a-request"); continue };
+        let r2 = hop_eq(&req, "PresentationRequest", out, "");
+        if crate::abs::abs_req(&req) != crate::abs::abs_req(&r2) {
+            out.oracle_fail("a presentation request means something else after a wire hop", &json!({"fam":"c15.hop","sig":"","type":"PresentationRequest","doc":r}), &json!({"sent": crate::abs::abs_req(&req), "arrived": crate::abs::abs_req(&r2)}));
+        }
+        out.count("c15:request:boundary-forms");
     }
     // custom codecs against the model (exact): Nonce, revocation list bits, request version, untagged attribute value, legacy aliases
     codec_cases(rng, thorough, &mut cases, out);
@@ -776,6 +817,13 @@ pub fn c14(eng: &mut Engine, rng: &mut Rng, thorough: bool, out: &mut Out) -> Ca
 // ---------------------------------------------------------------------------------------------
 // C11: issuance is bound to offer, request, schema and link secret
 
+/// one revealed attribute of the named credential
+fn basic_plan_for(eng: &Engine, held: &str) -> Plan {
+    let h = eng.cast.cred(held);
+    let n = eng.cast.creds[h].values[0].0.clone();
+    Plan { creds: vec![CredUse { held: h, state_list: None, ts_only: None }], refs: vec![RefPlan { referent: "a0".into(), kind: Kind::Single(n), cred: Some(0), revealed: true, restrictions: None, non_revoked: None }], global_nr: None, nonce: "123456".into(), holder: eng.cast.creds[h].holder }
+}
+
 pub fn c11(eng: &mut Engine, rng: &mut Rng, thorough: bool, out: &mut Out) -> Cases {
     let mut cases = vec![];
     let w = eng.cast.w.clone();
@@ -1024,6 +1072,45 @@ pub fn c11(eng: &mut Engine, rng: &mut Rng, thorough: bool, out: &mut Out) -> Ca
                         e[0].1 = e[1].1.clone();
                         e[1].1 = t;
                         process_w("values-swapped", &e, &meta1, &m1, holder, di, Some(false), out, &mut cases);
+                    }
+                    // the proof envelope: only an AnonCreds data-integrity proof with purpose assertionMethod holding a credential
+                    // *signature* is a credential to process; anything else is refused, whatever else matches
+                    {
+                        let cdg = json!({"id": d.cid.0, "key": di, "attrs": d.schema.attr_names.0});
+                        let derived = {
+                            let name = eng.cast.creds.iter().find(|h| h.def == di && h.holder == holder).map(|h| h.name);
+                            name.and_then(|name| { let plan = basic_plan_for(eng, name); eng.build_w3c(&plan).ok().map(|b| b.pres.verifiable_credential[0].clone()) })
+                        };
+                        let link = eng.cast.holders[holder].try_clone().unwrap();
+                        let mut envelope = |cls: &str, c: &anoncreds::data_types::w3c::credential::W3CCredential, out: &mut Out, cases: &mut Cases| {
+                            let mut c = c.clone();
+                            let given: Vec<(String, V)> = c.credential_subject.0.iter().map(|(k, v)| (k.clone(), v.clone())).collect();
+                            let ok = w3c::prover::process_credential(&mut c, &meta1, &link, &d.cd, None).is_ok();
+                            out.count(&format!("c11:process-w3c:{cls}:{}", if ok { "ok" } else { "rejected" }));
+                            if ok {
+                                out.oracle_fail("holder accepted a W3C credential whose proof is not a credential signature under assertionMethod", &json!({"fam":"c11.process_w3c","sig":"","cls":cls}), &Value::Null);
+                            }
+                            cases.push((json!({"op":"process_w3c","fam":"c11.process_w3c","cls":cls,"cd":cdg,"sig":sigw(true),"subject":sj(&given),"sig_proof_ok":false,"meta":m1,"holder":holder,"nt":true}), json!(ok)));
+                        };
+                        // purpose flipped to the other legal value
+                        let mut j = serde_json::to_value(&wc).unwrap();
+                        if let Some(p) = j.get_mut("proof") {
+                            let p = if p.is_array() { &mut p[0] } else { p };
+                            p["proofPurpose"] = json!("authentication");
+                        }
+                        if let Ok(c) = serde_json::from_value::<anoncreds::data_types::w3c::credential::W3CCredential>(j) {
+                            envelope("purpose-authentication", &c, out, &mut cases);
+                            // ... and with a forged value on top (nothing is checked once the envelope is not looked at)
+                            let mut c2 = c.clone();
+                            if let Some((k, _)) = honest.first() {
+                                c2.credential_subject.0.insert(k.clone(), V::String("forged".into()));
+                            }
+                            envelope("purpose-authentication+forged-value", &c2, out, &mut cases);
+                        }
+                        // a derived credential lifted out of a presentation (presentation proof instead of signature proof)
+                        if let Some(derived) = derived {
+                            envelope("presentation-proof-instead-of-signature", &derived, out, &mut cases);
+                        }
                     }
                 }
             }
